@@ -164,6 +164,6 @@ def _scalar_grad(pid, facet, spec, label):
     from harness.props import c14
     if pid != "C15" or facet != "circuits" or not spec.get("mixed"):
         return False
-    return any(b.get("g") == "scalar" and isinstance(b["a"][0], str)
+    return any(b.get("g") in ("scalar", "sqrt") and isinstance(b["a"][0], str)
                and spec["var"] in c14.expr_symbols(b["a"][0])
                for b, _ in spec["d"]["layers"])
